@@ -146,7 +146,16 @@ fn check(rep: &Report, path: &str, want: &View, got: Result<Result<EndpointInfo,
     }
 }
 
+/// A panic that escapes the per-step guards (e.g. while building the info) is still a refuting
+/// observation, not a crash of the monitor.
 fn run_case(rep: &Report, c: &Case) {
+    if let Err(p) = catch(|| run_case_inner(rep, c)) {
+        let loc = p.rsplit(" @ ").next().unwrap_or("").to_string();
+        rep.violation(&format!("C31:panic:unguarded@{}", common::short_loc(&loc)), p, serde_json::to_value(c).unwrap());
+    }
+}
+
+fn run_case_inner(rep: &Report, c: &Case) {
     rep.eval();
     let replay = serde_json::to_value(c).unwrap();
     let Some((sk, info)) = build(c) else {
